@@ -1,37 +1,38 @@
 (* C10 — Stream close is final, propagates to the peer and is reported exactly once.
-   Only the property theorems (closed by `exact`), their axiom reports, the full statement with its
-   refutations, the strongest partial theorem, and non-vacuity examples.
+   Only the property theorems (closed by `exact`), their axiom reports, one refuted corner with the hypothesis
+   it forces, and non-vacuity / regression examples.
    Model: Model/StreamState.v (one end: `est`; both ends: `world`); proofs: Proofs/StreamStateProofs.v.
 
    Quantification: either callback mode (cb0), every list of inbound events (data, peer close notifications),
    any number of concurrent/repeated Close() calls from other goroutines, any OnData behaviour including
-   Close() inside OnData, user Flush threads, a SetCallbacks call at any time, EVERY schedule (one shared
-   access per step).  The session stays open and the transport is one FIFO (C14 / C07 own the rest).
+   Close() inside OnData, user Flush threads, EVERY schedule (one shared access per step).  The session stays
+   open and the transport is one FIFO (C14 / C07 own the rest).
 
-   Status.  C10_monotone, C10_callbacks_at_most_once, C10_final_flush, C10_peer hold unconditionally.
-   The full statement C10_full (at quiescence after a returned Close(): state closed, out of the table,
-   exactly one of OnLocalClose/OnRemoteClose, and the peer was told unless it had told us) is REFUTED
-   three ways, all reproduced on the real code by the harness:
-     (1) Close() issued while a callback goroutine owns callbackInProcess — from inside OnData
-         (C10_refuted) or from any other goroutine: Close CASes the state to halfClosed and returns; the
-         goroutine's exit path then runs close() with oldState = halfClosed, which skips safeCloseNotify,
-         OnLocalClose AND the close element for the peer (ghost flag `khalf`);
-     (2) close() loads the state, the peer's close notification wins the CAS to halfClosed in between,
-         close()'s own CAS fails and it returns nil: the stream stays half-closed, in the table, not
-         cleaned, for ever — also in synchronous mode (C10_sync_refuted; ghost flag `casfail`).
-   C10_partial: with neither event in the run (every Close() found callbackInProcess = 0, no close() lost
-   its CAS) the full statement holds; C10_propagates_partial lifts it to both ends. *)
+   Status after the two repairs of stream.go that this model mirrors
+     fix 1  close() retries its CAS on the state (casToClosed) instead of returning nil when it loses it;
+     fix 2  Close() issued while a callback goroutine runs moves the state to streamLocalHalfClosed (not
+            halfClosed), and close() treats oldState = localHalfClosed like opened (safeCloseNotify,
+            OnLocalClose, close element for the peer):
+   C10_full — formerly refuted three ways (Close inside OnData, Close while OnData runs, close() losing its
+   CAS against the peer's close notification) — is now a THEOREM for every schedule, including the peer's
+   halfClose racing at any point, and C10_propagates lifts it to both ends.  The former witnesses are the
+   regression examples at the end of the file and regression scenarios of the harness (old signatures).
+   One hypothesis remains, `cb_stable`: callbacks are installed before the run or SetCallbacks is not called
+   during it.  It is forced: C10_setcallbacks_race_refuted (a Close() that read "no callbacks" just before
+   SetCallbacks and "callback in process" just after never stores callbackWaitExit, so nobody finishes the
+   close).  The window is two adjacent loads in Close(); the instrumented build cannot schedule inside it. *)
 From Coq Require Import List ZArith Lia Bool Arith.
 From Shm Require Import Gen.Consts Model.StreamState Proofs.StreamStateProofs.
 Import ListNotations.
 Open Scope Z_scope.
 
-(* the state only moves opened -> halfClosed -> closed or opened -> closed *)
+(* the state only moves opened -> halfClosed -> closed, opened -> localHalfClosed -> closed, or opened -> closed *)
 Theorem C10_monotone : forall cb0 inb nc scr ups sched sched',
   let s := run sched (init cb0 inb nc scr ups) in let s' := run sched' s in
-  (st s = c_streamOpened \/ st s = c_streamHalfClosed \/ st s = c_streamClosed) /\
+  (st s = c_streamOpened \/ st s = c_streamHalfClosed \/ st s = v_streamLocalHalfClosed \/ st s = c_streamClosed) /\
   (st s = c_streamClosed -> st s' = c_streamClosed) /\
-  (st s = c_streamHalfClosed -> st s' = c_streamHalfClosed \/ st s' = c_streamClosed).
+  (st s = c_streamHalfClosed -> st s' = c_streamHalfClosed \/ st s' = c_streamClosed) /\
+  (st s = v_streamLocalHalfClosed -> st s' = v_streamLocalHalfClosed \/ st s' = c_streamClosed).
 Proof. exact monotone. Qed.
 Print Assumptions C10_monotone.
 
@@ -64,67 +65,64 @@ Theorem C10_peer : forall cb0 inb nc scr ups sched,
 Proof. exact peer. Qed.
 Print Assumptions C10_peer.
 
-(* ---------- the full statement ---------- *)
-Definition C10_full : Prop := forall cb0 inb nc scr ups sched,
+(* ---------- the full statement: now a theorem ---------- *)
+Theorem C10_full : forall cb0 inb nc scr ups sched,
+  cb_stable cb0 sched ->
   let s := run sched (init cb0 inb nc scr ups) in quiesc s -> close_returned s -> closed_ok s.
+Proof. exact full. Qed.
+Print Assumptions C10_full.
 
-(* witness: one message, OnData consumes it and calls Close() *)
-Theorem C10_refuted : ~ C10_full.
-Proof.
-  intros H.
-  specialize (H true [EData [1]] 0%nat [(1%nat, true)] [] (repeat WEv 6 ++ repeat (WGor 0) 30)).
-  assert (Hq : quiesc (run (repeat WEv 6 ++ repeat (WGor 0) 30) (init true [EData [1]] 0 [(1%nat, true)] []))).
-  { vm_compute. repeat split; auto.
-    - intros [|[|i]] g Hg; simpl in Hg; try discriminate. inversion Hg; reflexivity.
-    - intros [|i] c Hc; discriminate. }
-  assert (Hr : close_returned (run (repeat WEv 6 ++ repeat (WGor 0) 30) (init true [EData [1]] 0 [(1%nat, true)] []))).
-  { right. vm_compute. reflexivity. }
-  destruct (H Hq Hr) as [_ [_ [_ [_ [Hcb _]]]]]. vm_compute in Hcb. discriminate.
-Qed.
-Print Assumptions C10_refuted.
-
-(* synchronous mode: Close() racing the peer's close notification *)
-Definition C10_full_sync : Prop := forall inb nc sched,
-  let s := run sched (init false inb nc [] []) in quiesc s -> close_returned s -> closed_ok s.
-Theorem C10_sync_refuted : ~ C10_full_sync.
-Proof.
-  intros H.
-  specialize (H [EClose] 1%nat (repeat (WClo 0) 3 ++ repeat WEv 3 ++ [WClo 0])).
-  assert (Hq : quiesc (run (repeat (WClo 0) 3 ++ repeat WEv 3 ++ [WClo 0]) (init false [EClose] 1 [] []))).
-  { vm_compute. repeat split; auto.
-    - intros [|i] g Hg; discriminate.
-    - intros [|[|i]] c Hc; simpl in Hc; try discriminate. inversion Hc; auto. }
-  assert (Hr : close_returned (run (repeat (WClo 0) 3 ++ repeat WEv 3 ++ [WClo 0]) (init false [EClose] 1 [] []))).
-  { left. exists 0%nat. vm_compute. reflexivity. }
-  destruct (H Hq Hr) as [Hst _]. vm_compute in Hst. discriminate.
-Qed.
-Print Assumptions C10_sync_refuted.
-
-(* ---------- the strongest provable part ---------- *)
-Theorem C10_partial : forall cb0 inb nc scr ups sched,
-  let s := run sched (init cb0 inb nc scr ups) in
-  khalf s = false ->     (* no Close() found callbackInProcess = 1 (none inside / during OnData) *)
-  casfail s = false ->   (* no close() lost its CAS on the state *)
-  quiesc s -> close_returned s -> closed_ok s.
-Proof. exact partial. Qed.
-Print Assumptions C10_partial.
-
-(* both ends: such a Close() on A reaches B — once B's event loop has drained its inbox B's stream has left
+(* both ends: a Close() on A reaches B — once B's event loop has drained its inbox B's stream has left
    `opened` (its Flush fails, its reads return the flushed data and then end-of-stream by C10_peer) *)
-Theorem C10_propagates_partial : forall cba cbb na nb sa sb ua ub sched,
+Theorem C10_propagates : forall cba cbb na nb sa sb ua ub sched,
+  wcb_stable cba sched ->
   let w := wrun sched (winit cba cbb na nb sa sb ua ub) in
-  khalf (wa w) = false -> casfail (wa w) = false -> quiesc (wa w) -> close_returned (wa w) ->
+  quiesc (wa w) -> close_returned (wa w) ->
   inbox (wb w) = [] -> epc (wb w) = EIdle ->
   st (wb w) <> c_streamOpened /\ flush_res (wb w) = RErrStreamClosed /\ read_res (wb w) <> RBlocked.
 Proof. exact propagates. Qed.
-Print Assumptions C10_propagates_partial.
+Print Assumptions C10_propagates.
+
+(* ---------- the hypothesis cb_stable is forced ---------- *)
+Definition C10_full_any_setcallbacks : Prop := forall cb0 inb nc scr ups sched,
+  let s := run sched (init cb0 inb nc scr ups) in quiesc s -> close_returned s -> closed_ok s.
+(* Close() reads "no callbacks"; SetCallbacks installs them and takes the flag; Close() reads the flag = 1,
+   half-closes and returns; the goroutine finds callbackCloseState = 0 and never closes *)
+Theorem C10_setcallbacks_race_refuted : ~ C10_full_any_setcallbacks.
+Proof.
+  intros H.
+  specialize (H false [] 1%nat [] [] ([WClo 0; WSet; WSet; WClo 0; WClo 0; WSet; WSet] ++ repeat (WGor 0) 8)).
+  match type of H with let s := ?r in _ => set (s := r) in H end. cbv zeta in H.
+  assert (Hq : quiesc s).
+  { vm_compute. repeat split; auto.
+    - intros [|[|i]] g Hg; simpl in Hg; try discriminate. inversion Hg; reflexivity.
+    - intros [|[|i]] c Hc; simpl in Hc; try discriminate. inversion Hc; auto. }
+  assert (Hr : close_returned s) by (left; exists 0%nat; vm_compute; reflexivity).
+  destruct (H Hq Hr) as [Hst _]. vm_compute in Hst. discriminate.
+Qed.
+Print Assumptions C10_setcallbacks_race_refuted.
+
+(* ---------- regression examples: the former refutation witnesses now end well ---------- *)
+(* (1) one message, OnData consumes it and calls Close() (formerly C10_refuted) *)
+Example C10_regress_close_inside_OnData :
+  let s := run (repeat WEv 6 ++ repeat (WGor 0) 40) (init true [EData [1]] 0 [(1%nat, true)] []) in
+  khalf s = true /\ st s = c_streamClosed /\ intable s = false /\ nlocal s = 1 /\ nremote s = 0 /\ out s = [EClose] /\
+  gors s = [GExit].
+Proof. vm_compute. repeat split. Qed.
+(* (2) synchronous mode, Close() racing the peer's close notification (formerly C10_sync_refuted): the lost
+   CAS is retried *)
+Example C10_regress_close_cas_race :
+  let s := run (repeat (WClo 0) 3 ++ repeat WEv 3 ++ repeat (WClo 0) 10) (init false [EClose] 1 [] []) in
+  casfail s = true /\ st s = c_streamClosed /\ intable s = false /\ nremote s = 1 /\ nlocal s = 0 /\ out s = [] /\
+  clos s = [KRet].
+Proof. vm_compute. repeat split. Qed.
 
 (* non-vacuity: synchronous mode, A flushes [5;6] and closes, B handles both events: A is closed, out of the
    table, reported once, told B; B is half-closed, still has the data to read, cannot flush *)
 Example C10_example_run :
   let w := wrun (repeat (SA, WUser 0%nat) 2 ++ repeat (SA, WClo 0%nat) 10 ++ repeat (SB, WEv) 6)
                 (winit false false 1 0 [] [] [[[5; 6]]] []) in
-  quiesc (wa w) /\ close_returned (wa w) /\ khalf (wa w) = false /\ casfail (wa w) = false /\
+  quiesc (wa w) /\ close_returned (wa w) /\
   st (wa w) = c_streamClosed /\ intable (wa w) = false /\ nlocal (wa w) = 1 /\ out (wa w) = [EData [5; 6]; EClose] /\
   st (wb w) = c_streamHalfClosed /\ read_res (wb w) = RData /\ flush_res (wb w) = RErrStreamClosed /\ nremote (wb w) = 1.
 Proof.
